@@ -97,18 +97,7 @@ func init() {
 		statelessPremise(c, false)
 		// the reducers / reshapes the Broadcast rule is composed of meet their element specification
 		premiseOps(c, core.PkgGrad, "Broadcast")
-		c.R.Rule("premise (delivery): the summed gradient only reaches the operand if the walk delivers it: the C01 walk obligations on the DAG templates are re-run (a walk that prunes, skips or fails leaves the operand without its sum)")
-		{
-			e := engine.NewOpEngine(c.P, c.A)
-			st := &engine.WalkStats{}
-			for _, pr := range engine.TemplatePrograms() {
-				e.RunProgram(pr, st)
-			}
-			fileOps(c, e, OpFilter{Keep: func(rule, construct string) bool {
-				return strings.HasPrefix(rule, "C01.") || rule == "interp"
-			}})
-			c.R.Count("walk.programs", st.Programs)
-		}
+		premiseWalk(c)
 		addOpsAssumptions(c)
 	})
 }
@@ -289,6 +278,21 @@ func statelessPremise(c *Ctx, components bool) {
 	}
 }
 
+// premiseWalk re-runs the C01 walk obligations on the DAG templates: gradients of components only arrive if the
+// walk delivers them (a walk that prunes, skips, double-counts or fails leaves tensors without their gradient).
+func premiseWalk(c *Ctx) {
+	c.R.Rule("premise (delivery): the C01 walk obligations on the DAG templates (diamonds, ladders, fan-outs, shared leaves, identity reshapes / broadcasts) are re-run: every tracked tensor of the graph receives the total derivative, every rule is applied at most once per edge")
+	e := engine.NewOpEngine(c.P, c.A)
+	st := &engine.WalkStats{}
+	for _, pr := range engine.TemplatePrograms() {
+		e.RunProgram(pr, st)
+	}
+	fileOps(c, e, OpFilter{Keep: func(rule, construct string) bool {
+		return strings.HasPrefix(rule, "C01.") || rule == "interp"
+	}})
+	c.R.Count("walk.programs", st.Programs)
+}
+
 // premiseLocalRules re-runs the C02 obligations (backward rule = VJP, shape, no failure, one edge per tracked
 // operand, for every subset of tracked operands) for the Tensor methods a component package invokes: the
 // component's gradients are the composition of these local rules.
@@ -393,6 +397,7 @@ func init() {
 		e.RunFCChecks()
 		statelessPremise(c, true)
 		premiseLocalRules(c, core.PkgLayers)
+		premiseWalk(c)
 		unitTolerance(c)
 		c.R.Rule("gradients of W, B and x: compositional over C01, C02 (UnSqueeze, MatMul, SumAlong, Add) and C07; the C07 obligations of the expansions FC uses are re-run here and carry known finding D2 (parameter gradients divided by the batch size)")
 		RunOps(c, OpFilter{Methods: []string{"Broadcast"}, Keep: func(rule, construct string) bool { return isGradRule(rule) && isBroadcastConstruct(construct) }})
@@ -525,6 +530,7 @@ func init() {
 		rules.S4Provenance(c.P, c.A, c.R)
 		rules.S3Ownership(c.P, c.A, c.R)
 		rules.S13TensorRetention(c.P, c.A, c.R)
+		rules.S15GoroutineDiscipline(c.P, c.A, c.R)
 		rules.S2Walk(c.P, c.A, c.R)
 		c.R.Rule("C08.bp on the DAG templates (incl. untracked operands, dead branches, untracked roots): the interpreted walk writes nothing on untracked or unrelated tensors - the part of the effect argument that concerns BackPropagate over graphs sharing untracked tensors")
 		{
@@ -566,6 +572,8 @@ func init() {
 		e.RunToleranceCheck("cputensor.(*CPUTensor).Eq/tolerance")
 		statelessPremise(c, true)
 		premiseLocalRules(c, core.PkgLosses)
+		premiseOps(c, core.PkgLosses)
+		premiseWalk(c)
 		unitTolerance(c)
 		c.R.NotDecide("predictions exactly at the two clipping bounds (excluded by the quantifier); floating-point rounding")
 	}, 30))
@@ -580,6 +588,8 @@ func init() {
 		e.RunToleranceCheck("cputensor.(*CPUTensor).Eq/tolerance")
 		statelessPremise(c, true)
 		premiseLocalRules(c, core.PkgActs)
+		premiseOps(c, core.PkgActs)
+		premiseWalk(c)
 		unitTolerance(c)
 		c.R.Rule("A3.finite at the extremes: with a unit chain factor and |x| <= 700 the interval of the gradient contains no NaN (0·Inf / Inf-Inf in the backward pass)")
 		c.R.NotDecide("finiteness for symbolic chain factors is decided on [-50,50]; rounding")
@@ -598,6 +608,7 @@ func init() {
 		e.RunSGDChecks(1)
 		statelessPremise(c, true)
 		unitTolerance(c)
+		premiseWalk(c)
 		RunOps(c, OpFilter{Methods: []string{"Broadcast"}, Keep: func(rule, construct string) bool { return isGradRule(rule) && isBroadcastConstruct(construct) }})
 	}, 8))
 }
